@@ -1,17 +1,22 @@
 (* C08, part "error funnel": hand model of the exception -> alert / shutdown funnel of
    tlslite-ng.  Definitions only (lemmas: Proofs/C08_Funnel.v).
 
-   Code modelled (line numbers of /repo/tlslite at the pinned tree):
+   Code modelled (line numbers of /repo/tlslite at /repo HEAD 0a4bdcb):
      errors.py 12-285, utils/codec.py 14-21   exception class hierarchy      -> bases / subclass
-     tlsrecordlayer.py 931-940   _shutdown                                    -> shutdown
-     tlsrecordlayer.py 943-951   _sendError                                   -> sendError
-     tlsrecordlayer.py 1377-1405 _getNextRecordFromSocket except clauses      -> record_alert / record_handler
-     tlsrecordlayer.py 1309-1319 _getMsg except clauses                       -> getmsg_alert / getmsg_handler
-     tlsrecordlayer.py 1108-1143 _getMsg, alert record of a type not expected -> getmsg_peer_alert
-     tlsrecordlayer.py 370-428   readAsync try/except                         -> read_handler
-     tlsrecordlayer.py 465-479   writeAsync try/except                        -> write_handler
-     tlsrecordlayer.py 509-558   closeAsync / _decrefAsync                    -> close_handler / close_peer_alert
-     tlsconnection.py 4998-5022  _handshakeWrapperAsync                       -> checker_step / wrapper_handler
+     tlsrecordlayer.py 938-947   _shutdown                                    -> shutdown
+     tlsrecordlayer.py 950-959   _sendError                                   -> sendError
+     tlsrecordlayer.py 1395-1423 _getNextRecordFromSocket except clauses      -> record_alert / record_handler
+     tlsrecordlayer.py 1327-1337 _getMsg except clauses                       -> getmsg_alert / getmsg_handler
+     tlsrecordlayer.py 1120-1155 _getMsg, alert record of a type not expected -> getmsg_peer_alert
+     tlsrecordlayer.py 376-434   readAsync try/except                         -> read_handler
+     tlsrecordlayer.py 460-486   writeAsync (closed test BEFORE the try)      -> write_handler
+     tlsrecordlayer.py 516-565   closeAsync / _decrefAsync                    -> close_handler / close_peer_alert
+     tlsrecordlayer.py 1028-1071 _sendMsgThroughSocket, failed handshake send -> DRecOnly, AShutRaiseRemote,
+                                                                                 AShutRaiseSock
+     tlsconnection.py 5173-5211  _handshakeWrapperAsync (with the clauses added by 6da5459:
+                                 TLSIllegalParameterException / TLSDecodeError /
+                                 TLSDecryptionFailed -> _sendError)           -> checker_step / wrapper_alert /
+                                                                                 wrapper_handler
    Python semantics used: `except C` catches e iff issubclass(type(e), C); clauses are tried
    in textual order; an exception raised inside an except clause is not caught by the sibling
    clauses of the same try; a bare `except:` catches every BaseException.
@@ -29,6 +34,7 @@
      action: 0 ARaise e d (a1 = class code, a2 = .description of the instance or -1)
              1 ASendError d (a1 = d)
              2 APeerAlert level descr (a1 = level, a2 = descr)   3 AShutRaiseRemote d (a1 = d)
+             4 AShutRaiseSock
      class codes: see exc_code below.
      final class: class code, or -1 when the call returns normally, -2 for undecodable input. *)
 From Coq Require Import ZArith List Bool.
@@ -155,12 +161,13 @@ Definition record_overflow := 22.
 Definition bad_certificate := 42.
 Definition illegal_parameter := 47.
 Definition decode_error := 50.
+Definition decrypt_error := 51.
 Definition level_warning := 1.
 Definition level_fatal := 2.
 (* index -> value, compared with tlslite.constants by the harness *)
 Definition alert_consts : list Z :=
   [close_notify; unexpected_message; bad_record_mac; decryption_failed; record_overflow;
-   bad_certificate; illegal_parameter; decode_error; level_warning; level_fatal].
+   bad_certificate; illegal_parameter; decode_error; level_warning; level_fatal; decrypt_error].
 
 (* ---- connection state ------------------------------------------------------------------ *)
 Inductive wire_event :=
@@ -249,8 +256,21 @@ Definition checker_step (e : exc_class) (d : option Z) (sf : bool) (st : cst) : 
     else (Raised (mkr e d), emit (WAlert level_fatal close_notify) st)
   else (Raised (mkr e d), st).
 
-(* tlsconnection.py 5011-5022 *)
-Definition wrapper_handler (r : raised) (st : cst) : outcome * cst :=
+(* tlsconnection.py 5195-5208 (added by 6da5459): protocol errors raised directly by the
+   handshake code.  Note TLSDecodeError (errors.py) is not codec.DecodeError, and the alert for
+   TLSDecryptionFailed is decrypt_error (51) here but decryption_failed (21) in the record
+   handler. *)
+Definition wrapper_alert (e : exc_class) : option Z :=
+  if subclass e E_TLSIllegalParameterException then Some illegal_parameter
+  else if subclass e E_TLSDecodeError then Some decode_error
+  else if subclass e E_TLSDecryptionFailed then Some decrypt_error
+  else None.
+
+(* tlsconnection.py 5186-5211.  The _sendError of the three new clauses runs inside an except
+   clause: what it raises (TLSLocalAlert, or socket.error when the alert cannot be sent) leaves
+   the wrapper directly -- neither the `except TLSAlert` fault logic nor the bare `except:`
+   (_shutdown) of the same try applies to it. *)
+Definition wrapper_handler (sf : bool) (r : raised) (st : cst) : outcome * cst :=
   let c := rclass r in
   if subclass c E_GeneratorExit then (Raised r, st)
   else if subclass c E_TLSAlert then
@@ -263,7 +283,10 @@ Definition wrapper_handler (r : raised) (st : cst) : outcome * cst :=
                     else (Raised (mkr E_TLSFaultError None), st)
         end
     end
-  else (Raised r, shutdown false st).
+  else match wrapper_alert c with
+       | Some d => sendError d sf st
+       | None => (Raised r, shutdown false st)
+       end.
 
 (* tlsrecordlayer.py 409-428 *)
 Definition read_handler (r : raised) (st : cst) : outcome * cst :=
@@ -303,8 +326,11 @@ Inductive action :=
                                       (TLSLocalAlert / TLSRemoteAlert instances), else None *)
 | ASendError (d : Z)               (* the code at that depth calls _sendError(d) *)
 | APeerAlert (level descr : Z)     (* the peer's alert record is processed by _getMsg / _decrefAsync *)
-| AShutRaiseRemote (d : Z).        (* self._shutdown(False); raise TLSRemoteAlert
-                                      [tlsconnection.py 4661-4662, tlsrecordlayer.py 1048-1054] *)
+| AShutRaiseRemote (d : Z)         (* self._shutdown(False); raise TLSRemoteAlert
+                                      [tlsconnection.py 4829-4830, tlsrecordlayer.py 1057-1063] *)
+| AShutRaiseSock.                  (* self._shutdown(False); raise sock_err: a handshake record
+                                      could not be sent and the pending record is not an alert
+                                      [tlsrecordlayer.py 1057-1066, since 0ab9df1] *)
 
 Definition layer_eqb (a b : layer) : bool :=
   match a, b with
@@ -330,11 +356,12 @@ Definition perform (ly : layer) (dp : depth) (a : action) (sf : bool) (st : cst)
                       | _ => getmsg_peer_alert l d sf st
                       end
   | AShutRaiseRemote d => (Raised (mkr E_TLSRemoteAlert (Some d)), shutdown false st)
+  | AShutRaiseSock => (Raised (mkr E_SockError None), shutdown false st)
   end.
 
-Definition layer_handler (ly : layer) : raised -> cst -> outcome * cst :=
+Definition layer_handler (ly : layer) (sf : bool) : raised -> cst -> outcome * cst :=
   match ly with
-  | LHandshake => wrapper_handler
+  | LHandshake => wrapper_handler sf
   | LRead => read_handler
   | LWrite => write_handler
   | LClose => close_handler
@@ -376,7 +403,7 @@ Definition funnel (ly : layer) (dp : depth) (a : action) (sf : bool) (st0 : cst)
     let s0 := perform ly dp a sf st in
     let s1 := if under_record dp then through (record_handler sf) s0 else s0 in
     let s2 := if under_getmsg dp then through (getmsg_handler sf) s1 else s1 in
-    pep479 (if is_pretry dp then s2 else through (layer_handler ly) s2).
+    pep479 (if is_pretry dp then s2 else through (layer_handler ly sf) s2).
 
 (* the alert that class e is mapped to when it arises at depth dp *)
 Definition mapped_alert (dp : depth) (e : exc_class) : option Z :=
@@ -385,6 +412,14 @@ Definition mapped_alert (dp : depth) (e : exc_class) : option Z :=
   | DRecOnly => record_alert e
   | DParser => getmsg_alert e
   | _ => None
+  end.
+
+(* the same, including the conversion done by the handshake wrapper for what reaches it
+   unconverted *)
+Definition mapped_alert_ly (ly : layer) (dp : depth) (e : exc_class) : option Z :=
+  match mapped_alert dp e with
+  | Some d => Some d
+  | None => if layer_eqb ly LHandshake && negb (is_pretry dp) then wrapper_alert e else None
   end.
 
 (* combinations that exist in the code (others are defined by composition but hypothetical) *)
@@ -412,6 +447,22 @@ Definition specified (dp : depth) (e : exc_class) : bool :=
   | _ => false
   end.
 
+(* classes the handshake bodies / key exchange / certificate code raise directly, outside
+   _getMsg (tlsconnection.py, keyexchange.py, x509.py, handshakehelpers.py, utils/ecc.py,
+   utils/compression.py) and that the wrapper converts *)
+Definition spec_handshake_direct_classes : list exc_class :=
+  [E_TLSIllegalParameterException; E_TLSDecodeError; E_TLSDecryptionFailed].
+Definition specified_ly (ly : layer) (dp : depth) (e : exc_class) : bool :=
+  specified dp e
+  || (layer_eqb ly LHandshake && negb (is_pretry dp)
+      && existsb (exc_eqb e) spec_handshake_direct_classes).
+
+(* TLSProtocolException classes that the handshake wrapper does NOT convert: raised directly
+   in a handshake body they still reach the caller unchanged and without an alert *)
+Definition residue_protocol_classes : list exc_class :=
+  [E_TLSProtocolException; E_TLSUnexpectedMessage; E_TLSRecordOverflow; E_TLSBadRecordMAC;
+   E_TLSInsufficientSecurity; E_TLSUnknownPSKIdentity; E_TLSHandshakeFailure].
+
 (* undocumented builtins: a crash of the Python code *)
 Definition crash_classes : list exc_class :=
   [E_Exception; E_AssertionError; E_AttributeError; E_LookupError; E_IndexError; E_KeyError;
@@ -429,6 +480,17 @@ Definition wf_event (ly : layer) (dp : depth) (a : action) : bool :=
   | ARaise e _ => negb (escapes_handlers ly e)
                 && negb (layer_eqb ly LHandshake && subclass e E_TLSAlert)
   | _ => true
+  end.
+(* the alert of one of the wrapper's new clauses cannot be sent: socket.error leaves the
+   wrapper from inside an except clause, nothing is shut down *)
+Definition unsendable_wrapper_alert (ly : layer) (dp : depth) (a : action) (sf : bool) : bool :=
+  sf && layer_eqb ly LHandshake &&
+  match a with
+  | ARaise e _ => match mapped_alert dp e, wrapper_alert e with
+                  | None, Some _ => true
+                  | _, _ => false
+                  end
+  | _ => false
   end.
 Definition keeps_resumable (ly : layer) (a : action) (st : cst) : bool :=
   (layer_eqb ly LWrite && ignore_abrupt st)
@@ -461,6 +523,7 @@ Definition action_of_code (k a1 a2 : Z) : option action :=
   else if k =? 1 then Some (ASendError a1)
   else if k =? 2 then Some (APeerAlert a1 a2)
   else if k =? 3 then Some (AShutRaiseRemote a1)
+  else if k =? 4 then Some AShutRaiseSock
   else None.
 
 Definition final_code (o : outcome) : Z :=
